@@ -3,6 +3,8 @@ import OnetVerif.Proofs.C20Spec
 import OnetVerif.Proofs.C20Lemmas
 import OnetVerif.Proofs.C20IPv4
 import OnetVerif.Shapes
+import OnetVerif.Gen.C20
+import OnetVerif.Proofs.C20Gen
 /-! Property C20 — address parsing is total and self-consistent.
 
 The property theorems, the negation witness for the code before the repair and non-vacuity
@@ -396,6 +398,113 @@ example : parseIP [48, 49, 48, 46, 48, 46, 48, 46, 49] = false ∧ parseIP [50, 
 example : valid [116, 99, 112, 58, 47, 47, 97, 58, 98, 58, 49] = false := by decide
 example : valid [117, 100, 112, 58, 47, 47, 49, 46, 50, 46, 51, 46, 52, 58, 56, 48] = false := by decide
 
+
+/-! ### the regenerated definitions equal the model
+`Gen/C20.lean` is re-translated from the Go source of /repo on every run (`harness/cmd/go2lean`, configuration
+`meta/go2lean.json`): onet's own functions become Lean definitions (early returns → nested `if`, index and slice
+expressions → `Gen.Rt.idx` / `Gen.Rt.slice` with the run-time panic as `none`, search loops → `Gen.Rt.rangeReturn`);
+the Go library functions they call are the hand-written models above.  The theorems below state that every
+regenerated definition computes what the hand-written model computes — for the functions that contain an
+index or slice expression including that the panic outcome cannot occur.  A semantic change of one of these
+functions changes the generated text and the theorem about it stops checking. -/
+section GenEq
+open Gen.Rt
+
+/-- the constants of address.go as translated are the model's -/
+theorem c20_gen_consts :
+    Gen.C20.PlainTCP = tcp ∧ Gen.C20.TLS = tls ∧ Gen.C20.Local = localT ∧ Gen.C20.InvalidConnType = wrong :=
+  ⟨rfl, rfl, rfl, rfl⟩
+
+/-- `connType` (address.go) as translated = `connTypeOf` -/
+theorem c20_gen_connType_eq (t : Str) : Gen.C20.connType t = connTypeOf t := by
+  unfold Gen.C20.connType connTypeOf
+  simp only [rangeReturn, List.findSome?, Gen.C20.PlainTCP, Gen.C20.TLS, Gen.C20.Local, Gen.C20.InvalidConnType, tcp, tls, localT, wrong]
+  by_cases h1 : t = [116, 99, 112]
+  · simp [h1]
+  · by_cases h2 : t = [116, 108, 115]
+    · simp [h2]
+    · by_cases h3 : t = [108, 111, 99, 97, 108]
+      · simp [h3]
+      · simp [h1, h2, h3, Ne.symm h1, Ne.symm h2, Ne.symm h3]
+
+/-- `validHostname` as translated never panics (`s[len(s)-1]` is guarded by the `len(s) == 0` test and by
+`strings.ToLower` keeping a non-empty string non-empty) and computes the model's `validHostname` -/
+theorem c20_gen_validHostname_eq (s : Str) : Gen.C20.validHostname s = some (validHostname s) := by
+  unfold Gen.C20.validHostname validHostname
+  by_cases hs : s = []
+  · simp [hs, len]
+  · have hl : goLower s ≠ [] := goLower_ne_nil hs
+    have h0 : (len s == 0) = false := by rw [len_eq_zero]; simpa using hs
+    simp only [h0, Bool.false_eq_true, if_false, hs, idx_last]
+    rw [slice_dropLast _ hl]
+    have hcore : ∀ g : Str,
+        (if decide (len g > 253) = true then some false
+         else
+          match rangeReturn (splitDot g) fun element =>
+              if (decide (len element < 1) || decide (len element > 63)) = true then some (some false) else none with
+          | some t => t
+          | none =>
+            if (!matchRe g) = true then if (Int.ofNat (List.count 46 g) == 0) = true then some true else some (matchRe g)
+            else some (matchRe g)) = some (hostnameCore g) := by
+      intro g
+      rw [rangeReturn_const (splitDot g) (fun element => decide (len element < 1) || decide (len element > 63)) (some false)]
+      unfold hostnameCore
+      have h253 : decide (len g > 253) = decide (g.length > 253) := len_gt g 253
+      have hany : (splitDot g).any (fun element => decide (len element < 1) || decide (len element > 63))
+          = (splitDot g).any (fun l => decide (l.length < 1) || decide (l.length > 63)) := by
+        congr 1; funext l
+        have a1 : decide (len l < 1) = decide (l.length < 1) := len_lt l 1
+        have a2 : decide (len l > 63) = decide (l.length > 63) := len_gt l 63
+        rw [a1, a2]
+      rw [h253, hany, count_zero]
+      generalize ((splitDot g).any fun l => decide (l.length < 1) || decide (l.length > 63)) = b
+      by_cases h1 : g.length > 253
+      · simp [h1]
+      · cases b <;> cases hm : matchRe g <;> cases hd : g.contains 46 <;> simp [h1]
+    cases hgl : (goLower s).getLast? with
+    | none => simp [List.getLast?_eq_none_iff] at hgl; exact absurd hgl hl
+    | some c =>
+      by_cases hc : c = 46
+      · have e : stripDot (goLower s) = (goLower s).dropLast := by simp [stripDot, hgl, hc]
+        have hb : (c == 46) = true := by simpa using hc
+        simp only [hb, if_true, e]
+        exact hcore _
+      · have e : stripDot (goLower s) = goLower s := by simp [stripDot, hgl, hc]
+        have hb : (c == 46) = false := by simpa using hc
+        simp only [hb, Bool.false_eq_true, if_false, e]
+        exact hcore _
+
+/-- `Address.Valid` as translated never panics (`vals[0]`, `vals[1]` are guarded by `len(vals) != 2`) and computes
+the model's `valid` -/
+theorem c20_gen_Address_Valid_eq (a : Str) : Gen.C20.Address_Valid a = some (valid a) := by
+  unfold Gen.C20.Address_Valid valid
+  simp only [c20_gen_connType_eq, c20_gen_validHostname_eq, c20_gen_consts.2.2.2]
+  generalize split a = vals
+  match vals with
+  | [t, na] =>
+    simp only [len, idx_pair, List.length_cons, List.length_nil]
+    by_cases hw : connTypeOf t = wrong
+    · simp [hw]
+    · cases hshp : splitHostPort na with
+      | none => simp [hw]
+      | some x =>
+        obtain ⟨ip, port⟩ := x
+        dsimp only
+        cases hat : atoi port with
+        | none => simp [hw]
+        | some p =>
+          by_cases h1 : p < 0
+          · simp [hw, h1]
+          · by_cases h2 : p > 65535
+            · simp [hw, h1, h2]
+            · by_cases h3 : ip = []
+              · simp [hw, h1, h2, h3]
+              · cases hip : parseIP ip <;> simp [hw, h1, h2, h3]
+  | [] => simp [len]
+  | [_] => simp [len]
+  | _ :: _ :: _ :: _ => simp [len]; omega
+
+end GenEq
 
 /-! ### the code regions the model stands for
 Regenerated from /repo's source on every run (`harness/cmd/astfacts` → `OnetVerif/Shapes.lean`): the
